@@ -109,12 +109,36 @@ def certificate_search(R, c, radius=3, max_labels=4):
     # it must reproduce exactly the claimed bits and symbols
     claimed_vals = symvals(c['cm'][3])
     texts = []
-    fresh = [n for n in fresh if not n.startswith(('ze_', 'zs_'))]       # only the block labels matter here
-    if len(fresh) > max_labels + 1:
-        return False
-    for combo in itertools.product(deltas, repeat=len(fresh)):
+    # only the block labels matter here.  A block label's shift between the two layouts lies between the shifts of the
+    # global labels around it (the start of the program has shift 0, its end the shift of the total length), so the
+    # candidates of each block label are that interval, widened by one; widened less if there would be too many
+    order = [it[1] for it in c['inl'].items if it[0] == 'label']
+    blk = [n for n in order if c17_gen.is_fresh(n) and not n.startswith(('ze_', 'zs_')) and n in base]
+    gshift = {g: claimed0[g] - base[g] for g in order if not c17_gen.is_fresh(g) and g in claimed0 and g in base}
+    total = (len(c['cm'][1]) - len(c['ci'][1])) // 8
+    spans = []
+    for n in blk:
+        i = order.index(n)
+        prev = next((gshift[g] for g in reversed(order[:i]) if g in gshift), 0)
+        nxt = next((gshift[g] for g in order[i + 1:] if g in gshift), total)
+        spans.append((min(prev, nxt), max(prev, nxt)))
+    for widen in (1, 0):
+        cands = [list(range(lo - widen, hi + widen + 1)) for (lo, hi) in spans]
+        size = 1
+        for cl in cands:
+            size *= len(cl)
+        if size <= 4000:
+            break
+    else:
+        cands = [sorted({lo, hi}) for (lo, hi) in spans]
+        size = 1
+        for cl in cands:
+            size *= len(cl)
+        if size > 4000:
+            return False
+    for combo in itertools.product(*cands):
         vals = dict(claimed_vals)
-        for n, d in zip(fresh, combo):
+        for n, d in zip(blk, combo):
             vals[n] = max(0, base[n] + d)
         lines = pin_globals(list(zip(c['inl'].items, c['inl'].lines())), vals)
         texts.append((c['prog'].isa.text() + '\n'.join(lines) + '\n', 30, c['s'], c['m']))
